@@ -176,6 +176,12 @@ def run(case):
         sp = np.array([np.array(gcall(gcall(p.metrics).speed)) for p in parts])
         if np.abs(np.array(sp_mean) - sp.mean(axis=0)).max() > 1e-9 or np.abs(np.array(sp_std) - sp.std(axis=0)).max() > 1e-9:
             raise Violation('std-speed', '')
+        amps = [np.array(gcall(gcall(p.metrics).amplitudes), float) for p in parts]
+        if len({a.shape for a in amps}) == 1 and amps[0].size:
+            # the element-wise mean/std over parts is only defined when every part has the same number of amplitudes
+            am, asd = gcall(std.amplitudes)
+            if np.abs(np.array(am) - np.mean(amps, axis=0)).max() > 1e-9 or np.abs(np.array(asd) - np.std(amps, axis=0)).max() > 1e-9:
+                raise Violation('std-amplitudes', f'{n_parts} parts')
         split_done = True
     else:
         split_done = False
